@@ -1,9 +1,9 @@
 package checks
 
 import (
-	"math"
 	"encoding/json"
 	"fmt"
+	"math"
 	"reflect"
 	"strings"
 	"time"
@@ -173,7 +173,6 @@ func isSentinelReply(m mocrelay.ServerMsg) bool {
 func runSessionSentinel(h mocrelay.Handler, msgs []mocrelay.ClientMsg, timeout time.Duration) ([]mocrelay.ServerMsg, bool) {
 	return runSessionWith(h, msgs, timeout, mwSentinel)
 }
-
 
 // C17: limit middlewares.
 func C17(run *core.Run) {
